@@ -73,6 +73,65 @@ func diffFields(a, b *proj.SR) string {
 	return strings.Join(out, ",")
 }
 
+// sameCRS compares two SR values field by field (unexported datum included): floats must both be NaN or lie
+// within 4 units in the last place (NewTransform's own shortcut tolerates 3), everything else exactly.
+// Independent of proj's Equal on purpose.
+func sameValue(a, b reflect.Value) bool {
+	if a.Kind() != b.Kind() {
+		return false
+	}
+	switch a.Kind() {
+	case reflect.Float64:
+		x, y := a.Float(), b.Float()
+		if math.IsNaN(x) || math.IsNaN(y) {
+			return math.IsNaN(x) && math.IsNaN(y)
+		}
+		if x == y {
+			return true
+		}
+		if (x < 0) != (y < 0) {
+			return false
+		}
+		bx, by := math.Float64bits(math.Abs(x)), math.Float64bits(math.Abs(y))
+		d := bx - by
+		if by > bx {
+			d = by - bx
+		}
+		return d <= 4
+	case reflect.String:
+		return a.String() == b.String()
+	case reflect.Bool:
+		return a.Bool() == b.Bool()
+	case reflect.Int:
+		return a.Int() == b.Int()
+	case reflect.Slice:
+		if a.Len() != b.Len() {
+			return false
+		}
+		for i := 0; i < a.Len(); i++ {
+			if !sameValue(a.Index(i), b.Index(i)) {
+				return false
+			}
+		}
+		return true
+	case reflect.Ptr:
+		if a.IsNil() || b.IsNil() {
+			return a.IsNil() && b.IsNil()
+		}
+		return sameValue(a.Elem(), b.Elem())
+	case reflect.Struct:
+		for i := 0; i < a.NumField(); i++ {
+			if !sameValue(a.Field(i), b.Field(i)) {
+				return false
+			}
+		}
+		return true
+	}
+	return false
+}
+
+func sameCRS(a, b *proj.SR) bool { return sameValue(reflect.ValueOf(a).Elem(), reflect.ValueOf(b).Elem()) }
+
 // firstDiff names the first field in which two dumps differ (for diagnostics)
 func firstDiff(a, b string) string {
 	fa, fb := strings.Split(a, ","), strings.Split(b, ",")
@@ -475,6 +534,22 @@ func implHist(p *vproto.Parser) string {
 		return t, "ok"
 	}
 	orc := &oracle{defs: allDefs, seen: map[string]string{}}
+	// Do the two definitions of transformer k denote the same CRS once the constructors' defaults are
+	// applied?  (all fields of copies of freshly parsed objects after one constructor run; floats within 4 ulp)
+	for k := range pairs {
+		same := 0
+		vproto.Safe(func() {
+			fr, _ := parseAll(defs)
+			fr = append(fr, wgsSR)
+			a, b := *fr[pairs[k][0]], *fr[pairs[k][1]]
+			vproto.Safe(func() { a.Transformers() })
+			vproto.Safe(func() { b.Transformers() })
+			if sameCRS(&a, &b) {
+				same = 1
+			}
+		})
+		fmt.Fprintf(&b, " ; tsame %d %d", k, same)
+	}
 	for k := range pool {
 		if lateAt[k] < 0 {
 			pool[k], built[k] = build(k, all)
